@@ -97,8 +97,31 @@ let on_line_line (line : string) : string =
     "O 0 x" ^ hex_of (Buffer.contents b)
   | _ -> "O 0 P"
 
+(* E <code points>: what LexParseError::pp must print for an error whose span / lexeme is (a, b), for every
+   boundary span a <= b of the text: the line and column of the span's START, i.e. byte_to_line_col
+   (line_col_spec applied at a), whatever b is.  PE = lexing error, PR = the same handed back by the parser,
+   PQ = parse error (no recovery, hence no repair sequences) at a lexeme of span (a, b). *)
+let errpp_line (line : string) : string =
+  let text = List.map n_of_int (ints_of (String.sub line 1 (String.length line - 1))) in
+  match run_case [text] with
+  | Panic | OutOfFuel -> "FEEDPANIC"
+  | Done r ->
+    let b = Buffer.create 256 in
+    Buffer.add_string b (Printf.sprintf "N %d" (int_of_nat r.cr_len));
+    let lc = List.map (fun (off, o) -> (int_of_nat off, o)) r.cr_line_cols in
+    List.iter (fun ((s, e), _) ->
+      let s = int_of_nat s and e = int_of_nat e in
+      let at fmt = match List.assoc_opt s lc with
+        | Some (Done (Some (l, c))) -> "x" ^ hex_of (Printf.sprintf fmt (int_of_nat l) (int_of_nat c))
+        | _ -> "P" in
+      Buffer.add_string b (Printf.sprintf " | PE %d %d %s" s e (at "Lexing error at line %d column %d."));
+      Buffer.add_string b (Printf.sprintf " | PR %d %d %s" s e (at "Lexing error at line %d column %d."));
+      Buffer.add_string b (Printf.sprintf " | PQ %d %d %s" s e (at "Parsing error at line %d column %d. No repair sequences found."))) r.cr_spans;
+    Buffer.contents b
+
 let () =
   iter_lines (fun line ->
+    if String.length line > 0 && line.[0] = 'E' then errpp_line line else
     if String.length line > 0 && line.[0] = 'O' then on_line_line line else
     if String.length line > 0 && line.[0] = 'D' then diag_line line else
     if String.length line > 0 && line.[0] = 'G' then spanned_line line else
